@@ -34,6 +34,9 @@ pub struct Case {
     /// argv prefix shared by the batch and by each individual call (everything but the program)
     #[serde(default)]
     pub argv_prefix: Vec<String>,
+    /// standard output is a terminal
+    #[serde(default)]
+    pub tty: bool,
 }
 
 impl Case {
@@ -48,7 +51,7 @@ impl Case {
             mount_boundary: false,
             entropy: 11,
             umask: None,
-            stdout_tty: false,
+            stdout_tty: self.tty,
         }
     }
 }
@@ -279,6 +282,45 @@ pub fn discover(cfg: &Cfg) -> Vec<(String, usize)> {
     v
 }
 
+/// Names of the environment variables the tree's own sources read (`var("X")`, `var_os("X")`),
+/// found by scanning them at run time: configuration is a way in for commands and paths too.
+pub fn discover_env(cfg: &Cfg) -> Vec<String> {
+    fn walk(dir: &std::path::Path, out: &mut Vec<std::path::PathBuf>) {
+        let Ok(rd) = std::fs::read_dir(dir) else { return };
+        let mut es: Vec<_> = rd.flatten().map(|e| e.path()).collect();
+        es.sort();
+        for p in es {
+            if p.is_dir() {
+                walk(&p, out);
+            } else if p.extension().is_some_and(|e| e == "rs") {
+                out.push(p);
+            }
+        }
+    }
+    let mut files = Vec::new();
+    for c in ["jaq", "jaq-core", "jaq-std", "jaq-json", "jaq-fmts", "jaq-all"] {
+        walk(&cfg.repo.join(c).join("src"), &mut files);
+    }
+    let mut names = Vec::new();
+    for f in files {
+        let Ok(text) = std::fs::read_to_string(&f) else { continue };
+        for pat in ["var(\"", "var_os(\"", "var(\n", "var_os(\n"] {
+            let mut rest = text.as_str();
+            while let Some(i) = rest.find(pat) {
+                rest = &rest[i + pat.len()..];
+                let r = rest.trim_start().trim_start_matches('"');
+                let name: String = r.chars().take_while(|c| c.is_ascii_alphanumeric() || *c == '_').collect();
+                if name.len() >= 2 && name.chars().all(|c| c.is_ascii_uppercase() || c.is_ascii_digit() || c == '_') && r[name.len()..].starts_with('"') {
+                    names.push(name);
+                }
+            }
+        }
+    }
+    names.sort();
+    names.dedup();
+    names
+}
+
 const HOSTILE: &[&str] = &[
     "/@ROOT/honey/secret.txt",
     "file:///@ROOT/honey/secret.txt",
@@ -464,9 +506,9 @@ fn batch_program(calls: &[String]) -> String {
     format!("[{}] | length", calls.join(",\n "))
 }
 
-pub fn gen_case(rng: &mut Rng, filters: &[(String, usize)]) -> Case {
+pub fn gen_case(rng: &mut Rng, filters: &[(String, usize)], env_names: &[String]) -> Case {
     let mut files = base_files();
-    let env = base_env(rng);
+    let mut env = base_env(rng);
     let kind = match rng.usize(22) {
         0..=9 => "natives",
         10..=15 => "decoder",
@@ -654,6 +696,15 @@ pub fn gen_case(rng: &mut Rng, filters: &[(String, usize)]) -> Case {
             argv.extend(["-i".to_string(), filter.to_string(), "f.json".to_string()]);
         }
     }
+    // every variable the tree reads (and the run does not already set) holds, half of the time, a
+    // command that would leave a mark in a honeypot directory
+    for n in env_names {
+        if !env.iter().any(|(k, _)| k == n) && rng.chance(1, 2) {
+            env.push((n.clone(), format!("touch /@ROOT/honey/env-{n}")));
+        }
+    }
+    // one run in four writes to a terminal (paging, colours, prompts are decided by that)
+    let tty = kind != "inplace" && rng.chance(1, 4);
     Case {
         files,
         argv,
@@ -665,6 +716,7 @@ pub fn gen_case(rng: &mut Rng, filters: &[(String, usize)]) -> Case {
         inplace,
         calls,
         argv_prefix,
+        tty,
     }
 }
 
@@ -730,6 +782,7 @@ pub fn check(cfg: &Cfg) -> Result<i32, Harness> {
     simos::tracer::WATCHDOG_MS.store(10_000, std::sync::atomic::Ordering::Relaxed);
     let n = cfg.n(500, 12_000);
     let filters = discover(cfg);
+    let env_names = discover_env(cfg);
     if filters.len() < 100 {
         return Err(Harness(format!("only {} filters discovered: discovery is broken", filters.len())));
     }
@@ -749,7 +802,7 @@ pub fn check(cfg: &Cfg) -> Result<i32, Harness> {
             let wk = wk.as_mut().map_err(|e| Harness(e.0.clone()))?;
             wk.tally = Tally::default();
             let mut rng = Rng::for_run(cfg.seed, ID, i);
-            let case = gen_case(&mut rng, &filters);
+            let case = gen_case(&mut rng, &filters, &env_names);
             let mut tally = Tally::default();
             let (v, h) = eval(&case, &su, wk, &mut tally)?;
             record_digest(i, h.digest());
@@ -773,6 +826,9 @@ pub fn check(cfg: &Cfg) -> Result<i32, Harness> {
                 eprintln!("DUMP exit={:?} stdout={:?} stderr={:?}", h.exit, String::from_utf8_lossy(&h.stdout.0), String::from_utf8_lossy(&h.stderr.0));
             }
             tally.add(format!("runs:{}", case.kind));
+            if case.tty {
+                tally.add("reach:stdout_is_a_terminal");
+            }
             for f in &h.fired {
                 tally.add(format!("fired:{}", f.split(' ').nth(1).unwrap_or("?")));
             }
@@ -856,8 +912,9 @@ pub fn check(cfg: &Cfg) -> Result<i32, Harness> {
         coverage: json!({
             "evaluations": evaluations,
             "distinct_nontrivial": keys.len(),
-            "rule": "each run is one process of the real binary in a world with honeypot files (paths that occur only in data and filter arguments). natives: a batch of 40-70 calls `try (limit(3; $hI | NAME($hJ; ...)) | 0) catch 1` over the filters discovered in the tree at run time (library natives, natives found in jaq/src/*.rs except repl, all jq-coded definitions) with path-, URL- and command-like strings and hostile documents as input and arguments, plus three calls per batch aimed at the time-zone look-up (zone names and formats that traverse out of the database towards a honeypot) (a batch that does not exit 0 is re-run call by call); decoder: hostile XML (external entities, SYSTEM ids, xinclude, PIs), YAML (language tags, !include, merge keys, aliases), CBOR (tags 24/32/55799), TOML, CSV/TSV, JSON documents and files that begin with the magic numbers of compressed data, archives, executables and scripts, through files (also as second input file, --rawfile, --slurpfile, under misleading names), stdin and from*/to* filters with every --to; module: include/import/data import from -L (allowed reads are exercised); inplace: -i (documented exception). One in five native batches runs with the time-zone database unreadable. Policy over the complete system-call history: no network/process/kernel call, no file-system mutation outside the -i exception, no access of any kind to a honeypot, no open/stat of a path the invocation does not name (start-up set measured with `jaq -n empty`, time-zone database read-only), unchanged file tree afterwards. distinct = distinct called filters (natives) plus distinct command lines (other kinds).",
+            "rule": "each run is one process of the real binary in a world with honeypot files (paths that occur only in data and filter arguments). natives: a batch of 40-70 calls `try (limit(3; $hI | NAME($hJ; ...)) | 0) catch 1` over the filters discovered in the tree at run time (library natives, natives found in jaq/src/*.rs except repl, all jq-coded definitions) with path-, URL- and command-like strings and hostile documents as input and arguments, plus three calls per batch aimed at the time-zone look-up (zone names and formats that traverse out of the database towards a honeypot) (a batch that does not exit 0 is re-run call by call); decoder: hostile XML (external entities, SYSTEM ids, xinclude, PIs), YAML (language tags, !include, merge keys, aliases), CBOR (tags 24/32/55799), TOML, CSV/TSV, JSON documents and files that begin with the magic numbers of compressed data, archives, executables and scripts, through files (also as second input file, --rawfile, --slurpfile, under misleading names), stdin and from*/to* filters with every --to; module: include/import/data import from -L (allowed reads are exercised); inplace: -i (documented exception). abend: the run ends by a panic (two data-driven ones exist in the pinned tree), an overflowing stack, an uncaught error, halt_error, a huge output, optionally on a standard output that fails with EPIPE/EIO/ENOSPC; TMPDIR points into the world. One in five native batches runs with the time-zone database unreadable. Policy over the complete system-call history: no network/process/kernel call, no file-system mutation outside the -i exception, no access of any kind to a honeypot, no open/stat of a path the invocation does not name (start-up set measured with `jaq -n empty`, time-zone database read-only), unchanged file tree afterwards. distinct = distinct called filters (natives) plus distinct command lines (other kinds).",
             "filters_discovered": filters.len(),
+            "environment_variables_discovered": env_names,
             "runs_by_kind": pick("runs:"),
             "faults_fired": pick("fired:"),
             "reach_probes": pick("reach:"),
